@@ -500,6 +500,21 @@ def interval():
                 ok = (f, l) == (nz[0], nz[-1]) and expr == want and (neg == "-") == (sign < 0)
                 if not ok:
                     return f"Interval({kw}) under {qc.__name__} renders {sql!r}; read with layout {unit} it does not denote the components"
+    # the same object rendered under several dialects renders like a fresh one each time
+    for kw in ({"days": 1}, {"hours": 2, "minutes": 3}, {"years": 1, "months": 2}):
+        shared = Interval(**kw)
+        for qc in list(QUERY_CLASSES) + list(reversed(QUERY_CLASSES)):
+            a, b = shared.get_sql(qc.SQL_CONTEXT), Interval(**kw).get_sql(qc.SQL_CONTEXT)
+            if a != b:
+                return (f"Interval({kw}) rendered under {qc.__name__} after other dialects gives {a!r}, a fresh "
+                        f"object gives {b!r}")
+    # large components stay in their own field (no carrying between fields), also for negative intervals
+    for kw in ({"microseconds": 1500000}, {"microseconds": -1500000}, {"seconds": 75}, {"minutes": 61, "seconds": 1},
+               {"seconds": 1, "microseconds": 2500000}):
+        sql = Interval(**kw).get_sql(QUERY_CLASSES[0].SQL_CONTEXT)
+        for v in kw.values():
+            if str(abs(v)) not in sql:
+                return f"Interval({kw}) renders {sql!r}: the component {abs(v)} is not in the literal"
     for kw in ({"quarters": 2}, {"quarters": -2}, {"weeks": 5}, {"weeks": -5}):
         sql = str(Interval(**kw))
         n = list(kw.values())[0]
